@@ -229,7 +229,8 @@ func (tst *tsTable) TakeFileSnapshot(dst string) (success bool, err error) {
 		}
 	}()
 
-	for k, v := range tst.sidxMap {
+	sidxMap := tst.getAllSidx()
+	for k, v := range sidxMap {
 		indexDir := filepath.Join(dst, sidxDirName, k)
 		tst.fileSystem.MkdirPanicIfExist(indexDir, storage.DirPerm)
 		if sidxErr := v.TakeFileSnapshot(indexDir); sidxErr != nil {
@@ -253,7 +254,7 @@ func (tst *tsTable) TakeFileSnapshot(dst string) (success bool, err error) {
 		hasDiskParts = true
 	}
 	if !hasDiskParts {
-		return len(tst.sidxMap) > 0, nil
+		return len(sidxMap) > 0, nil
 	}
 	tst.createMetadata(dst, snapshot)
 	parent := filepath.Dir(dst)
